@@ -4,7 +4,7 @@
      kind "var": doc + a layout variation of its print (spacing, comments, CRLF) with the same meaning
      kind "mut": bytes only (token-level mutations, error paths): model-vs-implementation only
    observable = TL [TS "ok"; profile] | TL [TS "unrec"] | TL [TS "err"] | TL [TS "panic"; ..] *)
-From PV Require Import M_LegacyDoc S_Legacy.
+From PV Require Import M_LegacyDoc S_Legacy M_LegacyGlue.
 Open Scope Z_scope.
 
 (* math.Exp oracle: table of (count, size, rate) -> (count', size') computed by the harness with
@@ -135,4 +135,43 @@ Definition spec_C14 (i o : term) : bool :=
        | _ => false
        end.
 
-Definition judge_C14 := judge_all run_C14 eqv_C14 spec_C14 cls_C14 0%Z.
+(* ---------------- end-to-end layer ----------------
+   input = TL [TS kind; TS fmt; doc; TS ""; TL oracle; flags; steps]
+     kind "e2e-cli": driver.PProf -traces -addresses on the printed document (plain or gzip file) with the option
+                     steps on the command line; observable TL [report]
+     kind "e2e-int": one interactive session; steps are input lines, a ("traces", _) step is a report; TL [report ...]
+     kind "e2e-web": -http session; steps is a list of requests (each a list of URL-parameter steps) to /top; TL [report ...]
+   report = TL [TS "ok"; TS type-legend; TL rows] | TL [TS "err"].  The expectation is computed from the DOCUMENTED
+   conversion of the document (the convert functions) and the glue model (M_LegacyGlue): it is the specification. *)
+Definition is_e2e (i : term) : bool := has_prefix "e2e" (i_kind i).
+Definition steps_of (t : term) : list (string * string) := map (fun e => (gs (gn e 0), gs (gn e 1))) (gl t).
+Definition enc_traces (o : option (string * list (Z * list Z))) : term :=
+  match o with
+  | None => TL [TS "err"]
+  | Some (ty, rows) => TL [TS "ok"; TS ty; TL (map (fun r => TL [TZ (fst r); of_zs (snd r)]) rows)]
+  end.
+Definition enc_top (o : option (string * list (Z * Z))) : term :=
+  match o with
+  | None => TL [TS "err"]
+  | Some (ty, rows) => TL [TS "ok"; TS ty; TL (map (fun r => TL [TZ (fst r); TZ (snd r)]) rows)]
+  end.
+Fixpoint int_reports (p : profile) (steps : list (string * string)) (st : gstate) : list term :=
+  match steps with
+  | [] => []
+  | kv :: r =>
+      if String.eqb (fst kv) "traces" then enc_traces (traces_view p st) :: int_reports p r st
+      else int_reports p r (int_step (type_names p) (p_defaultsampletype p) st kv)
+  end.
+Definition e2e_expected (i : term) : term :=
+  let p := convert_of i in
+  let k := i_kind i in
+  if String.eqb k "e2e-cli" then TL [enc_traces (traces_view p (cli_state (steps_of (gn i 6))))]
+  else if String.eqb k "e2e-int" then TL (int_reports p (steps_of (gn i 6)) g0)
+  else TL (map (fun rq => enc_top (top_view p (cli_config (steps_of rq) g0))) (gl (gn i 6))).
+
+Definition run_all (i : term) : term := if is_e2e i then e2e_expected i else run_C14 i.
+Definition eqv_all (i m o : term) : bool := if is_e2e i then term_eqb m o else eqv_C14 i m o.
+Definition spec_all (i o : term) : bool := if is_e2e i then term_eqb (e2e_expected i) o else spec_C14 i o.
+Definition cls_all (i : term) : list Z := if is_e2e i then [] else cls_C14 i.
+
+Definition judge_C14 := judge_all run_all eqv_all spec_all cls_all 0%Z.
